@@ -941,7 +941,9 @@ def delete_unreachable_code(source: str) -> str:
             continue
 
         if isinstance(node, ast.While) and not test_value:
-            yield node, None, transaction
+            if not node.orelse:
+                # The else clause of a loop that never runs is always executed
+                yield node, None, transaction
             continue
 
         if isinstance(node, ast.If):
@@ -1923,11 +1925,16 @@ def remove_dead_ifs(source: str) -> str:
         except ValueError:
             continue
 
-        if isinstance(node, ast.While) and not value:
+        if isinstance(node, ast.While) and not value and not node.orelse:
+            # The else clause of a loop that never runs is always executed
             yield node, None
 
         if isinstance(node, ast.IfExp):
             yield node, node.body if value else node.orelse
+
+        if isinstance(node, ast.If) and core.get_code(node, source).startswith("elif"):
+            # The branches of an elif cannot replace it, since they would end up after the if
+            continue
 
         if isinstance(node, ast.If):
             # Both body and orelse are dead => node is dead
